@@ -28,9 +28,42 @@ fn expected(std_off: i32, dst_off: i32, st: i32, et: i32, consistent: bool) -> R
     Ok(())
 }
 
-struct Pre {
+pub struct Pre {
     tz_days: Vec<RuleDay>,
     tables: DayTables,
+}
+
+impl Pre {
+    pub fn new(tables: DayTables) -> Pre {
+        let tz_days: Vec<RuleDay> = tables.days.iter().map(|d| d.to_tz().unwrap()).collect();
+        Pre { tz_days, tables }
+    }
+}
+
+/// one decision with every argument read from the generator (libFuzzer target `model`: from the tape)
+pub fn fuzz_case(l: &mut Local, pre: &Pre, rng: &mut crate::util::rng::Rng) {
+    let n = pre.tables.days.len();
+    let si = rng.below(n as u64) as usize;
+    let ei = rng.below(n as u64) as usize;
+    let diffs = pre.tables.diffs(si, ei);
+    let (so, d_o, st, et) = match rng.below(3) {
+        0 => {
+            // a d near a breakpoint at a translation near an extreme or a whole week
+            let d = rng.range(-17, 17) * 86400 + rng.range(-2, 2);
+            let us = *rng.pick(&[U_MAX, U_MIN, 604_800, -604_800, 0, 86_400, -86_400]) + rng.range(-2, 2) + if rng.chance(1, 2) { d } else { 0 };
+            match realise_at(us, d) {
+                Some(r) => r,
+                None => (0, 0, 0, 0),
+            }
+        }
+        1 => {
+            let o = |rng: &mut crate::util::rng::Rng| *rng.pick(&[-90_000i64, 93_600, 0, 3600, -3600]) + rng.range(-2, 2);
+            let t = |rng: &mut crate::util::rng::Rng| *rng.pick(&[-604_800i64, 604_800, 0, 7200, 86_400]) + rng.range(-2, 2);
+            (o(rng) as i32, o(rng) as i32, t(rng) as i32, t(rng) as i32)
+        }
+        _ => ((rng.next() as i32).max(i32::MIN + 1) >> rng.below(20), (rng.next() as i32).max(i32::MIN + 1) >> rng.below(20), (rng.next() as i32) >> rng.below(16), (rng.next() as i32) >> rng.below(16)),
+    };
+    decide(l, pre, si, ei, &diffs, so, d_o, st, et);
 }
 
 #[allow(clippy::too_many_arguments)]
@@ -141,8 +174,7 @@ pub fn run(ctx: &Ctx) -> Report {
         return rep;
     }
     let tables = if ctx.scale < 1.0 { DayTables::with_stride(97) } else { DayTables::new() };
-    let tz_days: Vec<RuleDay> = tables.days.iter().map(|d| d.to_tz().unwrap()).collect();
-    let pre = Pre { tz_days, tables };
+    let pre = Pre::new(tables);
     let n = pre.tables.days.len();
     let ds: Vec<i64> = if ctx.quick() && ctx.scale < 1.0 {
         let mut v = vec![];
